@@ -127,14 +127,14 @@ func (m Match) IsMatch(ctx context.Context, path string, e discovery.Entry) bool
 	}
 
 	if m.Path != "" {
-		re := strictRegex(m.Path)
+		re := fullMatchRegex(m.Path)
 		if !re.MatchString(path) {
 			return false
 		}
 	}
 
 	if m.Name != "" {
-		re := strictRegex(m.Name)
+		re := fullMatchRegex(m.Name)
 		if e.Rule.AlertingRule != nil && !re.MatchString(e.Rule.AlertingRule.Alert.Value) {
 			return false
 		}
@@ -184,6 +184,12 @@ func (m Match) IsMatch(ctx context.Context, path string, e discovery.Entry) bool
 	return true
 }
 
+// fullMatchRegex compiles s so that it must match the whole string,
+// including when s has a top level alternation like "foo|bar".
+func fullMatchRegex(s string) *regexp.Regexp {
+	return regexp.MustCompile("^(?:" + s + ")$")
+}
+
 type MatchLabel struct {
 	Key   string `hcl:",label" json:"key"`
 	Value string `hcl:"value" json:"value"`
@@ -200,8 +206,8 @@ func (ml MatchLabel) validate() error {
 }
 
 func (ml MatchLabel) isMatching(entry discovery.Entry) bool {
-	keyRe := strictRegex(ml.Key)
-	valRe := strictRegex(ml.Value)
+	keyRe := fullMatchRegex(ml.Key)
+	valRe := fullMatchRegex(ml.Value)
 
 	for _, label := range entry.Labels().Items {
 		if keyRe.MatchString(label.Key.Value) && valRe.MatchString(label.Value.Value) {
@@ -228,8 +234,8 @@ func (ma MatchAnnotation) validate() error {
 }
 
 func (ma MatchAnnotation) isMatching(rule parser.Rule) bool {
-	keyRe := strictRegex(ma.Key)
-	valRe := strictRegex(ma.Value)
+	keyRe := fullMatchRegex(ma.Key)
+	valRe := fullMatchRegex(ma.Value)
 
 	if rule.AlertingRule == nil || rule.AlertingRule.Annotations == nil {
 		return false
